@@ -338,9 +338,58 @@ def check_accessor(run, f, rule='R8', extra_objs=(), skip_self=False):
                     n_ob -= 1
             else:
                 run.holds(rule, subj, 'element agreement', 'the per-element branch applies %s to every element' % src(e1, 40), f=f, node=st)
+    # (v) a per-value method answers for EVERY value the receiver holds: a value return that does not read the receiver's values at all
+    # (`return self.__class__()` for the zeroth power) is one value whatever the length, unless it lies under a len(self) == 1 test
+    if s and not skip_self:
+        derived = {s}
+        for _ in range(4):
+            for y in own_walk(f.node):
+                if isinstance(y, ast.Assign) and any(isinstance(z, ast.Name) and z.id in derived and not _class_only(z, parents) for z in ast.walk(y.value)):
+                    for t in y.targets:
+                        for z in ast.walk(t):
+                            if isinstance(z, ast.Name):
+                                derived.add(z.id)
+                elif isinstance(y, (ast.For, ast.comprehension)) and any(isinstance(z, ast.Name) and z.id in derived for z in ast.walk(y.iter)):
+                    for z in ast.walk(y.target):
+                        if isinstance(z, ast.Name):
+                            derived.add(z.id)
+        for r in own_walk(f.node):
+            if not (isinstance(r, ast.Return) and r.value is not None):
+                continue
+            v = r.value
+            if isinstance(v, ast.Constant) or (isinstance(v, ast.Name) and v.id in ('NotImplemented',)):
+                continue
+            reads = [z for z in ast.walk(v) if isinstance(z, ast.Name) and z.id in derived and not _class_only(z, parents)]
+            if reads:
+                continue
+            if not any(isinstance(z, ast.Call) for z in ast.walk(v)):
+                continue          # a plain constant expression / flag
+            node = owner.get(id(v)) or cfg.node_of(r)
+            fs = facts.get(node.id, frozenset()) if node is not None else frozenset()
+            single = len1(fs, s, True)
+            if single:
+                continue
+            uses_class = any(isinstance(z, ast.Attribute) and z.attr == '__class__' for z in ast.walk(v)) or \
+                any(isinstance(z, ast.Call) and isinstance(z.func, ast.Name) and z.func.id == 'type' for z in ast.walk(v))
+            if not uses_class:
+                continue          # not an object of the receiver's class: other rules (R6/R7) own such returns
+            n_ob += 1
+            run.violation(rule, subj, 'result independent of the values: ' + src(v, 40), 'this return builds an object of the receiver\'s class without reading '
+                          'the receiver\'s values: for a receiver holding M values the result holds one value instead of M (element i of the result is not the '
+                          'operation applied to element i)', f=f, node=r)
     if n_ob == 0:
         run.holds(rule, subj, 'accessor', 'no single-or-list value is used; elements are taken from self / self.data', f=f,
                   nontrivial=False)
+
+
+def _class_only(name_node, parents):
+    """the receiver is read only for its class: self.__class__ / type(self)"""
+    p = parents.get(id(name_node))
+    if isinstance(p, ast.Attribute) and p.attr == '__class__':
+        return True
+    if isinstance(p, ast.Call) and isinstance(p.func, ast.Name) and p.func.id == 'type':
+        return True
+    return False
 
 
 def _kw(d):
@@ -626,3 +675,112 @@ def check_zip_lengths(run, funcs, rule='R8z'):
                               'zip stops at the shorter one, so operands of two different lengths (both > 1) give a truncated result instead of '
                               'ValueError' % ' and '.join(distinct), f=f, node=z)
     return n
+
+
+# ---------------------------------------------------------------------------------------------------------------- per-class slices
+def check_element_slices(run, keys, rule='R8'):
+    """Element agreement through the class's own accessors.  Where the one-value arm of a method of an abstract base reads a part of
+    the value through a property (`self.w`) and the many-values arm slices the stored vectors directly (`S[-self.N:] for S in
+    self.data`), the two are compared PER CONCRETE CLASS: the property is resolved through the MRO to its slice of `self.data[0]`,
+    `self.N` to its constant, the length of the stored vector to the class's `shape`, and both slices to index sets."""
+    prog = run.prog
+
+    def const_prop(cls, name):
+        k, mem = prog.lookup_member(cls, name)
+        if isinstance(mem, Function):
+            rets = [r.value for r in own_walk(mem.node) if isinstance(r, ast.Return) and r.value is not None]
+            if len(rets) == 1:
+                return rets[0]
+        return None
+
+    def idx_set(sl, L, env):
+        """index set selected by a subscript expression on a vector of length L"""
+        def val(x):
+            if x is None:
+                return None
+            x = _SubstNames(env).visit(copy.deepcopy(x))
+            try:
+                return int(eval(compile(ast.Expression(body=x), '<slice>', 'eval'), {'__builtins__': {}}, {}))
+            except Exception:
+                raise ValueError(ast.unparse(x))
+        if isinstance(sl, ast.Slice):
+            return frozenset(range(L)[slice(val(sl.lower), val(sl.upper), val(sl.step))])
+        i = val(sl)
+        return frozenset([range(L)[i]])
+    for key in keys:
+        f = prog.func(key)
+        s = f.selfname
+        if f.cls is None or s is None:
+            continue
+        cfg = CFG(f.node)
+        facts = must_facts(cfg)
+        single, multi = [], []
+        for r in own_walk(f.node):
+            if not (isinstance(r, ast.Return) and r.value is not None):
+                continue
+            node = cfg.node_of(r)
+            fs = facts.get(node.id, frozenset()) if node is not None else frozenset()
+            if len1(fs, s, True):
+                single.append(r)
+            elif len1(fs, s, False):
+                multi.append(r)
+        if len(single) != 1 or len(multi) != 1:
+            continue
+        comp = multi[0].value
+        if isinstance(comp, ast.Call) and comp.args and isinstance(comp.args[0], ast.ListComp):
+            comp = comp.args[0]
+        if not (isinstance(comp, ast.ListComp) and len(comp.generators) == 1 and isinstance(comp.generators[0].target, ast.Name)):
+            continue
+        g = comp.generators[0]
+        if not (isinstance(g.iter, ast.Attribute) and g.iter.attr == 'data' and isinstance(g.iter.value, ast.Name) and g.iter.value.id == s):
+            continue
+        ev = g.target.id
+        props = [y for y in ast.walk(single[0].value) if isinstance(y, ast.Attribute) and isinstance(y.value, ast.Name) and y.value.id == s]
+        subs = [y for y in ast.walk(comp.elt) if isinstance(y, ast.Subscript) and isinstance(y.value, ast.Name) and y.value.id == ev]
+        if len(props) != 1 or len(subs) != 1:
+            continue
+        classes = prog.concrete_subclasses(f.cls) or [f.cls]
+        for cls in classes:
+            construct = 'element slice for %s: %s ~ %s' % (cls.name, src(props[0], 20), src(subs[0], 30))
+            pe = const_prop(cls, props[0].attr)
+            shp = const_prop(cls, 'shape')
+            if pe is None or shp is None or not (isinstance(shp, ast.Tuple) and len(shp.elts) == 1 and isinstance(shp.elts[0], ast.Constant)):
+                run.undecided(rule, key, construct, 'property or shape of the class not resolved', f=f, node=multi[0])
+                continue
+            L = shp.elts[0].value
+            # property body: self.data[0][<slice>]
+            if not (isinstance(pe, ast.Subscript) and isinstance(pe.value, ast.Subscript) and isinstance(pe.value.value, ast.Attribute) and pe.value.value.attr == 'data'):
+                run.undecided(rule, key, construct, 'property is not a slice of self.data[0]', f=f, node=multi[0])
+                continue
+            env = {}
+            for y in ast.walk(subs[0].slice):
+                if isinstance(y, ast.Attribute) and isinstance(y.value, ast.Name) and y.value.id == s:
+                    c = const_prop(cls, y.attr)
+                    if isinstance(c, ast.Constant):
+                        env[ast.unparse(y)] = c
+            try:
+                a = idx_set(pe.slice, L, {})
+                b = idx_set(subs[0].slice, L, env)
+            except ValueError as ex:
+                run.undecided(rule, key, construct, 'slice bound %s is not a constant of the class' % ex, f=f, node=multi[0])
+                continue
+            if a == b:
+                run.holds(rule, key, construct, 'both arms read elements %s of the %d-vector' % (sorted(a), L), f=f, node=multi[0])
+            else:
+                run.violation(rule, key, construct, 'for %s the one-value arm reads %s = elements %s of the stored %d-vector, the many-values arm reads %s = elements %s: '
+                              'element i of a multi-valued result is not what the method returns for the single value X[i]'
+                              % (cls.name, src(props[0], 20), sorted(a), L, src(subs[0], 30), sorted(b)), f=f, node=multi[0])
+
+
+import copy  # noqa: E402
+
+
+class _SubstNames(ast.NodeTransformer):
+    def __init__(self, env):
+        self.env = env
+
+    def visit_Attribute(self, n):
+        k = ast.unparse(n)
+        if k in self.env:
+            return copy.deepcopy(self.env[k])
+        return self.generic_visit(n)
